@@ -122,6 +122,37 @@ try:
     fails.append('no ValueError for an exception without traceback')
 except ValueError:
     pass
+# the text that travels is the one formatted WHEN THE EXCEPTION WAS WRAPPED: what happens to the exception object afterwards (it keeps propagating and gathers frames,
+# its traceback is cleared to break a cycle, it is raised again elsewhere) before the wrapper is finally pickled -- e.g. by a queue's feeder thread -- must not matter
+def failure_site_marker():
+    raise LookupError('late pickling')
+
+
+def wrap_then_mutate(how):
+    try:
+        failure_site_marker()
+    except LookupError as e:
+        w = RemoteException(e)
+        if how == 'traceback cleared':
+            e.__traceback__ = None
+        elif how == 'raised again elsewhere':
+            try:
+                raise e
+            except LookupError:
+                pass
+            e.__traceback__ = None
+        return w
+
+
+for how in ('pickled at once', 'traceback cleared', 'raised again elsewhere'):
+    w = wrap_then_mutate(how)
+    try:
+        out = pickle.loads(pickle.dumps(w))
+    except BaseException as x:      # noqa: BLE001
+        fails.append(f'late pickling ({how}): {type(x).__name__}: {x}')
+        continue
+    if not is_remote_exception(out) or 'failure_site_marker' not in get_remote_traceback(out) or type(out) is not LookupError:
+        fails.append(f'late pickling ({how}): the traceback text of the failure site did not travel: {get_remote_traceback(out)[-120:] if is_remote_exception(out) else out!r}')
 if fails:
     print('\n'.join(sorted(set(fails))[:30])); sys.exit(1)
 print('OK')
